@@ -38,6 +38,7 @@ def seed() -> int:
 # ---------------------------------------------------------------------------------------------
 
 _known_cache = None
+_tier = "quick"
 
 
 def load_known():
@@ -60,12 +61,13 @@ def load_known():
                 cases = None
                 if "cases" in e:
                     cases = set(e["cases"])
-                if "cases_file" in e:
-                    p = os.path.join(ROOT, e["cases_file"])
-                    op = gzip.open if p.endswith(".gz") else open
-                    with op(p, "rt") as cf:
-                        cs = {l.rstrip("\n") for l in cf if l.strip()}
-                    cases = cs if cases is None else cases | cs
+                for fkey in ("cases_file", "cases_file_thorough"):
+                    if fkey in e and (fkey == "cases_file" or _tier == "thorough"):
+                        p = os.path.join(ROOT, e[fkey])
+                        op = gzip.open if p.endswith(".gz") else open
+                        with op(p, "rt") as cf:
+                            cs = {l.rstrip("\n") for l in cf if l.strip()}
+                        cases = cs if cases is None else cases | cs
                 key = (e["property"], e["sig"])
                 if key in out and out[key]["cases"] is not None and cases is not None:
                     out[key]["cases"] |= cases
@@ -82,6 +84,8 @@ def load_known():
 
 class Report:
     def __init__(self, pid: str, tier: str, level: str, rule: str = ""):
+        global _tier
+        _tier = tier
         self.pid = pid
         self.tier = tier
         self.level = level
@@ -129,6 +133,11 @@ class Report:
             self._write_evidence(violations=0, known={}, status="oracle-error")
             return 2
 
+        dump = os.environ.get("VERIF_DUMP_FAILURES")
+        if dump:  # development aid for tools/triage.py; never used by registered commands
+            with gzip.open(dump, "wt") as fh:
+                for f in self.failures:
+                    fh.write(json.dumps({"sig": f["sig"], "case": f["case"], "detail": f["detail"]}, default=str) + "\n")
         known = load_known()
         seen_known: dict[str, int] = {}
         new: list[dict] = []
